@@ -80,6 +80,7 @@ DONE = {
 
 # sentences appended to the level texts (extensions of session 5)
 EXTRA = {
+ "C02": " A small family sends the local steps (insert / prefix delete with its reported count) through the client API of a real engine (Doc::set_hash, Doc::del, Doc::get_many) against the same model.",
  "C03": " The clause 'counted as inserted' is judged through the store actor's counters of entries added by peers: exact for single remote inserts, never above what was valid and applied for a message.",
  "C07": " About 1.6 % of the cases drive the client API of a real Docs engine (memory or file-backed): imports that hand back handles which stay open, further opens and closes, writes through set_bytes / del, drop, restart from disk; the capability model predicts every write and the listed kinds after every step.",
  "C10": " A rare family gives one side of a real-vs-real session 255..1100 entries by as many distinct authors (filling the store is under the watchdog too).",
